@@ -61,6 +61,7 @@ func free(c *hx.Ctx, prop string) {
 			if k == closeAt {
 				nw.Add(1)
 				go func() { defer nw.Done(); s.Eng.ForceClose() }()
+				s.CloseCalled2 = true
 			}
 			for w := 0; w < a.wait; w++ {
 				runtime.Gosched()
@@ -109,6 +110,7 @@ func free(c *hx.Ctx, prop string) {
 		}
 		if closeAt == len(acts) || closeAt < 0 {
 			nw.Add(1)
+			s.CloseCalled2 = true
 			go func() { defer nw.Done(); s.Eng.ForceClose() }()
 		}
 		done := make(chan struct{})
